@@ -61,9 +61,22 @@ def float_order_sensitive(pipe):
     return pipe["matching_cost"]["matching_cost_method"] == "zncc" and "aggregation" in pipe
 
 
-def run_whole_and_crops(ctx, report, gs, label, wide=False, force=None):
+def run_whole_and_crops(ctx, report, gs, label, wide=False, force=None, tall=False):
     rng = random.Random(gs)
-    if wide:
+    if tall:
+        # a tall pair of 12-bit radiometry matched with zncc (seed C13-4): the running sums behind the window means and
+        # variances exceed 2^24 after a few rows, so a pixel far down the image must not depend on how many rows precede it
+        rows, cols = rng.choice([(70, 12), (84, 11), (96, 10)])
+        lo, hi = rng.choice([(-1, 1), (0, 2), (-2, 0)])
+        left, right = pl.make_pair(rng, rows, cols, lo, hi, masks=False, smooth=True, vmax=4096)
+        w = rng.choice([3, 5])
+        pipe = {"matching_cost": {"matching_cost_method": "zncc", "window_size": w, "subpix": 1},
+                "disparity": {"disparity_method": "wta", "invalid_disparity": -9999}}
+        if rng.random() < 0.7:
+            pipe["refinement"] = {"refinement_method": rng.choice(["vfit", "quadratic"])}
+        rr = rc = (w - 1) // 2
+        cross = False
+    elif wide:
         # a strip several internal processing blocks long (100 / 50 pixels) with a large no-data area: a tile starting
         # past the area must give the same values as the whole strip
         rows, cols = rng.choice([(8, 230), (9, 260), (7, 215)])
@@ -135,6 +148,8 @@ def run_whole_and_crops(ctx, report, gs, label, wide=False, force=None):
         # crops that share some image borders and crops strictly inside, at every offset parity
         r0 = rng.choice([0, 0, 1, 2, 3]) if not wide else 0
         r1 = rng.choice([rows, rows, rows - 1, rows - 2]) if not wide else rows
+        if tall:
+            r0 = rng.choice([rows - 20, rows - 27, rows - 34, 40])
         c0 = rng.choice([0, 0, 1, 2, 3, 4]) if not wide else rng.choice([104, 108, 112, 117, 60])
         c1 = rng.choice([cols, cols, cols - 1, cols - 2, cols - 3])
         if r1 - r0 < 2 * rr + 3 or c1 - c0 < 2 * rc + 3 + (ext_hi - ext_lo):
@@ -205,7 +220,7 @@ def run(ctx, report, status):
         "real differential: a local pipeline (matching cost, optional cbca, wta, optional refinement / median or bilateral filter / "
         "cross-checking) on a whole 12-16 x 20-26 pair and on crops at every offset parity (array coordinates reset or kept), "
         "disparity and flags compared bit for bit on the pixels whose dependency cone (clipped to the image) lies inside the crop; "
-        "plus the vertically flipped pair; non-trivial = at least one cone-interior pixel compared; distinct by (seed, pipeline)"
+        "plus wide strips crossing the 100-pixel blocks, cbca with no-data patches and tall 12-bit zncc pairs (crops far down the image); plus the vertically flipped pair; non-trivial = at least one cone-interior pixel compared; distinct by (seed, pipeline)"
     )
     for name, case in core.load_corpus(PROP):
         run_whole_and_crops(ctx, report, case["gen_seed"], "corpus:" + name, force=case.get("force"))
@@ -220,6 +235,10 @@ def run(ctx, report, status):
         gs = ctx.rng.randrange(1 << 30)
         run_whole_and_crops(ctx, report, gs, f"gen_seed={gs},cbca_mask", force="cbca_mask")
         report.count("cbca_with_nodata_patches")
+    for i in range(ctx.n(3, 30)):
+        gs = ctx.rng.randrange(1 << 30)
+        run_whole_and_crops(ctx, report, gs, f"gen_seed={gs},tall", tall=True)
+        report.count("tall_12bit_zncc")
 
 
 def search(ctx, report, status):
@@ -227,6 +246,11 @@ def search(ctx, report, status):
     for _ in range(60):
         gs = ctx.rng.randrange(1 << 30)
         run_whole_and_crops(ctx, sub, gs, f"gen_seed={gs}")
+        if sub.failures:
+            return sub.failures[0]
+    for _ in range(6):
+        gs = ctx.rng.randrange(1 << 30)
+        run_whole_and_crops(ctx, sub, gs, f"gen_seed={gs},tall", tall=True)
         if sub.failures:
             return sub.failures[0]
     return None
@@ -239,7 +263,8 @@ def replay(ctx, report, path):
         data = json.load(f)
     case = data.get("input", data)
     gs = int(re.search(r"gen_seed=(\d+)", case["label"]).group(1))
-    run_whole_and_crops(ctx, report, gs, case["label"], wide=case["label"].endswith(",wide"))
+    run_whole_and_crops(ctx, report, gs, case["label"], wide=case["label"].endswith(",wide"), tall=case["label"].endswith(",tall"),
+                        force="cbca_mask" if case["label"].endswith(",cbca_mask") else None)
     for fl in report.failures:
         print("spec failure:", fl["clause"], fl["trigger"], json.dumps(fl["case"], default=str)[:300], fl["impl"])
     print("replayed: failures=%d" % len(report.failures))
